@@ -11,5 +11,7 @@ func init() {
 		o.pins("mod/module", "Versions.Max")
 		o.pins("internal/mod/modrequirements", "Requirements.readModGraph", "Requirements.cueModSummary", "NewRequirements", "Requirements.Graph", "cmpVersion")
 		o.pins("internal/par", "NewQueue", "Queue.Add", "Queue.Idle")
+		// extension round (session 3): the remaining operations of mvs.go (Model/MvsOps.lean)
+		o.pins("internal/mod/mvs", "Req", "Upgrade", "UpgradeAll", "Downgrade", "override.Required")
 	}
 }
